@@ -49,17 +49,19 @@ class LevelPolicy:
         other = [g for g in pending if g[0] != 'b']
         if other:
             return ['g', self.rng.choice(other)]
-        cur = [g for g in body if self.dep.get(g[1]) == self.level]
-        if self.state == 'q':
-            self.on_quiescent(self.level, body)
-            self.state = 'release'
-        if cur:
-            return ['g', self.rng.choice(cur)]
-        self.level += 1
-        self.state = 'q'
-        if body:
-            return self.next(ready, pending)
-        return None
+        while True:
+            cur = [g for g in body if self.dep.get(g[1]) == self.level]
+            if self.state == 'q':
+                self.on_quiescent(self.level, body)
+                self.state = 'release'
+            if cur:
+                return ['g', self.rng.choice(cur)]
+            if not body or self.level > max(self.dep.values()) + 1:
+                # nothing of this or a deeper level is outstanding (if bodies are outstanding at a SMALLER level something was started out of
+                # turn and the level check above has already reported it): release whatever is left, else stop
+                return ['g', self.rng.choice(body)] if body else None
+            self.level += 1
+            self.state = 'q'
 
 
 def main():
